@@ -244,11 +244,17 @@ class Compiler(object):
         return compiled
 
     def pre_process(self):
+        # Expand COMPONENTS OF in all modules before anything else, so
+        # that the copied members are the ones in the specification
+        # text also when they come from an already processed module.
+        for module_name, module in self._specification.items():
+            self.pre_process_components_of(module['types'].values(),
+                                           module_name)
+
         for module_name, module in self._specification.items():
             types = module['types']
             type_descriptors = types.values()
 
-            self.pre_process_components_of(type_descriptors, module_name)
             self.pre_process_extensibility_implied(module, type_descriptors)
             self.pre_process_tags(module, module_name)
             self.pre_process_default_value(type_descriptors, module_name)
